@@ -82,7 +82,13 @@ func (s *LSpec) bisimRules(m *LMode, tokNum func(int) int) string {
 }
 
 func init() {
-	register("lexgen", "random lexer specs through the real generator; table validator + compiled lexers vs model (C02 C07 C10 C11)", func(c *Ctx) {
+	register("lexgen", "random lexer specs through the real generator; table validator + compiled lexers vs model (C02 C07 C10 C11)", func(c *Ctx) { lexgenRun(c, "greedy") })
+	register("lexng", "non-greedy rules of the C08 shape among greedy neighbours (C08)", func(c *Ctx) { lexgenRun(c, "ng") })
+	register("lexngk2", "non-greedy rules with a greedy neighbour sharing their prefix (known finding K2)", func(c *Ctx) { lexgenRun(c, "k2") })
+}
+
+func lexgenRun(c *Ctx, variant string) {
+	{
 		root, err := os.MkdirTemp("", "verif-lexgen-")
 		if err != nil {
 			panic(err)
@@ -98,6 +104,11 @@ func init() {
 				o = LGenOpts{MaxModes: 3, MaxRules: 7, Depth: 2, Small: c.Rng.Chance(1, 2)}
 			}
 			s := GenLSpec(c.Rng, o)
+			if variant == "ng" {
+				s = GenLSpecNG(c.Rng, false)
+			} else if variant == "k2" {
+				s = GenLSpecNG(c.Rng, true)
+			}
 			name := fmt.Sprintf("x%04d", i)
 			specs = append(specs, s)
 			names = append(names, name)
@@ -151,7 +162,11 @@ func init() {
 				modeStrs = append(modeStrs, joinI64(m))
 			}
 			for k, m := range s.Modes {
-				c.Emit("lex.bisim "+s.bisimRules(m, tokNum)+" | "+joinI64(p.LexModes[mi[k]]), "ok")
+				bop := "lex.bisim "
+				if variant != "greedy" {
+					bop = "lex.bisimng "
+				}
+				c.Emit(bop+s.bisimRules(m, tokNum)+" | "+joinI64(p.LexModes[mi[k]]), "ok")
 				c.Count("modes-validated")
 			}
 			all := strings.Join(modeStrs, " ; ")
@@ -184,6 +199,9 @@ func init() {
 					if outs[i] == "timeout" || outs[i] == "crash" || outs[i] == "panic" {
 						tag = "C11,C02,C07"
 					}
+					if variant != "greedy" {
+						tag = "C08"
+					}
 					or = fmt.Sprintf("%s: token stream differs from the rule-level definition: want `%s` got `%s` | input bytes %v | spec: %s", tag, want, outs[i], in, specTxt)
 				}
 				c.Distinct(p.Lox + "|" + string(in))
@@ -204,5 +222,5 @@ func init() {
 		if len(cases) > 0 {
 			c.Extra["sample_spec"] = cases[0].pkg.Lox
 		}
-	})
+	}
 }
